@@ -97,6 +97,10 @@ class SchedTransport:
             for i in range(sc[1]):
                 loop.call_later(0.05 + 0.3 * i, self._deliver, g, pend)
             loop.call_later(0.05 + 0.3 * sc[1], self._deliver, g, ConnectionResetError("script"))
+        elif k == "pending-silent":
+            # ResponsePending replies, then nothing at all (the connection stays open): the request ends after the silence limit
+            for i in range(sc[1]):
+                loop.call_later(0.05 + 0.3 * i, self._deliver, g, pend)
         elif k == "none":
             pass
         else:
@@ -141,6 +145,7 @@ script_s = st.one_of(
     st.tuples(st.just("late"), st.sampled_from([1.2, 1.7, 2.4])).map(list),
     st.just(["error"]),
     st.tuples(st.just("pending-error"), st.integers(1, 2)).map(list),
+    st.tuples(st.just("pending-silent"), st.integers(1, 2)).map(list),
 )
 
 
@@ -158,7 +163,9 @@ def case_s(draw) -> dict[str, Any]:
             "tp_interval": draw(st.one_of(st.none(), st.sampled_from([0.1, 0.25, 0.4, 0.9]))),
             "tp_script": draw(st.sampled_from([["imm"], ["imm"], ["delay", 0.3], ["none"], ["pending", 1, 0.1]])),
             "cancel": draw(st.one_of(st.none(), st.tuples(st.integers(0, n - 1), st.sampled_from([0.0005, 0.02, 0.06, 0.15, 0.33, 0.51, 0.8, 1.05, 1.21, 1.5])).map(list))),
-            "reconnect_at": draw(st.one_of(st.none(), st.sampled_from([0.02, 0.3, 0.75, 1.1])))}
+            "reconnect_at": draw(st.one_of(st.none(), st.sampled_from([0.02, 0.3, 0.75, 1.1]))),
+            # somebody stops the tester-present worker (as wait_for_ecu() does), pings, and starts it again - whatever the others are doing
+            "stop_worker_at": draw(st.one_of(st.none(), st.none(), st.sampled_from([0.03, 0.12, 0.3, 0.55, 0.75, 1.1])))}
 
 
 def run_case(case: dict[str, Any]) -> dict[str, Any]:
@@ -235,10 +242,24 @@ def run_case(case: dict[str, Any]) -> dict[str, Any]:
             except Exception as e:  # noqa: BLE001
                 results["rc"] = ("exc", type(e).__name__)
 
+        async def stopper(at: float) -> None:
+            await asyncio.sleep(at)
+            try:
+                await ecu.stop_cyclic_tester_present()
+                state["stopped"] = True
+                await ecu.ping()
+            except Exception as e:  # noqa: BLE001
+                results["stopper"] = ("exc", type(e).__name__)
+            finally:
+                await ecu.start_cyclic_tester_present(case["tp_interval"])
+                state["worker"] = ecu.tester_present_task
+
         if case["tp_interval"] is not None:
             await ecu.start_cyclic_tester_present(case["tp_interval"])
             state["worker"] = ecu.tester_present_task
         tasks = [loop.create_task(caller(c, f"c{i}"), name=f"c{i}") for i, c in enumerate(case["callers"])]
+        if case["tp_interval"] is not None and case.get("stop_worker_at") is not None:
+            tasks.append(loop.create_task(stopper(case["stop_worker_at"]), name="stopper"))
         if case["reconnect_at"] is not None:
             tasks.append(loop.create_task(reconnector(case["reconnect_at"]), name="rc"))
         if case["cancel"] is not None:
